@@ -4,6 +4,7 @@ package main
 
 import (
 	"fmt"
+	"os"
 	"go/types"
 	"strings"
 )
@@ -26,6 +27,9 @@ func init() {
 	}
 	intrinsics["vBool"] = func(fr *frame, args []value) value {
 		name := nameArg(args[0])
+		if pinnedModel != nil {
+			return pinnedModel[name] != 0
+		}
 		if i, ok := px.inputIx[name]; ok {
 			return sv{px.inputs[i].t, types.Bool}
 		}
@@ -50,7 +54,15 @@ func init() {
 		if lo == hi {
 			return int(lo)
 		}
-		x := newInput(nameArg(args[0]), types.Int).(sv)
+		xv := newInput(nameArg(args[0]), types.Int)
+		x, isSym := xv.(sv)
+		if !isSym {
+			c := asInt64(xv)
+			if c < lo || c > hi {
+				panic(pathAbort{"infeasible", false})
+			}
+			return int(c)
+		}
 		assume(mkAnd(mkCmp(opSle, mkBV(64, uint64(lo)), x.t), mkCmp(opSle, x.t, mkBV(64, uint64(hi)))))
 		return int(concretizeInt(x))
 	}
@@ -169,7 +181,7 @@ func init() {
 		return n
 	}
 	intrinsics["vPrint"] = func(fr *frame, args []value) value {
-		fmt.Println("vPrint:", toString(args[0]))
+		fmt.Fprintln(os.Stderr, "vPrint:", toString(args[0]))
 		return nil
 	}
 }
